@@ -287,6 +287,64 @@ def replay(case):
     return [{"oracle": o, "observed": ob, "expected": ex} for o, _s, ob, ex in viol]
 
 
+# Transcluding a stored page is a read: every sequence of reads over pages of three namespaces whose bodies contain inclusion
+# tags must leave the lookups (and a repeated transclusion) as they were.
+TR_PAGES = [("Foo bar", 0, "a<noinclude>doc</noinclude>b<includeonly>inc</includeonly>"),
+            ("Wiktionary:Boiler", 4, "shown<no<includeonly></includeonly>include>[[Category:Docs]]</no<includeonly></includeonly>include>"),
+            ("Help:H", 12, "h<noinclude>n</noinclude>"), ("Template:Tp", 10, "t<noinclude>n</noinclude><includeonly>i</includeonly>")]
+TR_READS = ["{{:Foo bar}}", "{{Wiktionary:Boiler}}", "{{Help:H}}", "{{Tp}}", "{{Template:Tp}}", "{{PAGESIZE:Wiktionary:Boiler}}",
+            "{{PAGESIZE:Foo bar}}", "body:Foo bar:0", "body:Wiktionary:Boiler:4", "body:Wiktionary:Boiler:None", "body:Help:H:12", "body:Tp:10"]
+
+
+def tr_read(ctx, r):
+    if r.startswith("body:"):
+        _, rest = r.split(":", 1)
+        title, ns = rest.rsplit(":", 1)
+        return ctx.get_page_body(title, None if ns == "None" else int(ns))
+    ctx.start_page("Tt")
+    return ctx.expand(r)
+
+
+def work_transclude(payload, skip, report):
+    acc = Acc(PROP)
+    _, firsts, depth = payload
+    dbdir = scratch_dir("c10t")
+
+    def fresh():
+        for f in os.listdir(dbdir):
+            os.remove(os.path.join(dbdir, f))
+        c = new_ctx(db_path=os.path.join(dbdir, "p.db"))
+        for t, ns, b in TR_PAGES:
+            c.add_page(t, ns, b)
+        c.db_conn.commit()
+        return c
+
+    alone = {}
+    for r in TR_READS:
+        c = fresh()
+        alone[r] = tr_read(c, r)
+        c.db_conn.close()
+    i = 0
+    for f0 in firsts:
+        for rest in itertools.product(TR_READS, repeat=depth - 1):
+            seq = [f0] + list(rest)
+            report(i)
+            i += 1
+            c = fresh()
+            got = [tr_read(c, r) for r in seq]
+            c.db_conn.close()
+            acc.case()
+            acc.count("read_histories")
+            want = [alone[r] for r in seq]
+            if got != want:
+                k = [j for j in range(len(seq)) if got[j] != want[j]][0]
+                acc.violation("reads_do_not_change_lookups", {"reads_in_order": seq, "pages": [list(x) for x in TR_PAGES]},
+                              {"read": seq[k], "got": got[k]}, want[k])
+    shutil.rmtree(dbdir, ignore_errors=True)
+    type(c).get_page.cache_clear()
+    return acc
+
+
 def main(run):
     ops = alphabet(run.tier)
     maxdepth = 3 if run.tier == "quick" else 4
@@ -303,6 +361,9 @@ def main(run):
                     chunks.append((ops, [(o1, o2)], depth))
     # biggest chunks first
     chunks.sort(key=lambda c: -(len(c[0]) ** (c[2] - len(c[1][0]))))
+    tchunks = [("transclude", [r], 2 if run.tier == "quick" else 3) for r in TR_READS]
+    for cid, acc, hung in run_chunks(work_transclude, tchunks, nproc=run.nproc, case_timeout=60):
+        run.acc.merge(acc)
     done = 0
     for cid, acc, hung in run_chunks(work, chunks, nproc=run.nproc, case_timeout=60):
         run.acc.merge(acc)
